@@ -44,6 +44,10 @@ Judge(c, s, h2) ==
   ELSE IF \E i \in DOMAIN s.hs : s.hs[i][2] # h2[s.hs[i][1]] THEN "replay-used-a-different-history"
   ELSE IF \E i \in DOMAIN s.hs : s.hs[i][3] # s.hs[i][4] THEN "fork-state-differs-from-a-fresh-parser-fed-its-own-history"
   ELSE IF o.op = "accepts" /\ SetOf(s.acc[1]) # SetOf(s.acc[2]) THEN "accepts-is-not-the-set-of-feedable-terminals"
+  \* s.acc[3]: the `expected` set of the UnexpectedToken raised for a token of no terminal at all, in the same state:
+  \* every terminal that can be fed has an action in the state's row, so it is expected (and only terminals are)
+  ELSE IF o.op = "accepts" /\ Len(s.acc) >= 4 /\ ~(SetOf(s.acc[2]) \subseteq SetOf(s.acc[3])) THEN "expected-of-UnexpectedToken-lacks-a-feedable-terminal"
+  ELSE IF o.op = "accepts" /\ Len(s.acc) >= 4 /\ ~(SetOf(s.acc[3]) \subseteq SetOf(s.acc[4])) THEN "expected-of-UnexpectedToken-names-a-non-terminal"
   ELSE IF s.last /\ \E i \in DOMAIN s.eof : s.eof[i][2] # s.eof[i][3] THEN "feed_eof-result-differs-from-parse"
   ELSE "ok"
 
